@@ -141,7 +141,14 @@ def run(rep, tier):
         def add(self, rule, key, ok, where='', detail='', nontrivial=True, data=None):
             if rule == 'R4' and (key.startswith('no-reject-after-open') or key.startswith('exemption-holds') or key.startswith('validate-before-emit')):
                 return self.rep.add('R12', key, ok, where, detail, nontrivial, data)
+            if rule == 'R4' and key.startswith('open-in:') and 'hexasm' in where.split(' ')[0].split('/')[-1]:
+                # every place of the assembler that opens an output stream (the designated writers and any other)
+                return self.rep.add('R12', key, ok, where, detail, nontrivial, data)
             return ok
+
+        def undecided(self, rule, key, why, where=''):
+            if rule == 'R4' and ('hexasm' in where or not key.startswith('open-in:')):
+                return self.rep.undecided('R12', key, why, where)
     c14.rule_r4(S12(rep, 'R12'), {tu: cast.load(tu) for tu in c14.MAINS})
     # R13: the name of every token can be produced without undefined behaviour (diagnostics and --tokens print it)
     rep.rule('R13', 'tokenEnumStr is defined for every enumerator of hexasm::Token: it returns a name or throws a std::exception, it never '
